@@ -49,7 +49,7 @@ func bufferSpec(c *Ctx) *LinearSpec {
 
 func init() {
 	register(&Rule{
-		ID: "R04.1", Props: []string{"C04", "C18", "C19", "C13"}, Engine: "linear (go/ssa typestate)",
+		ID: "R04.1", Props: []string{"C04", "C18", "C19", "C13", "C15", "C11", "C17"}, Engine: "linear (go/ssa typestate)",
 		Text: "every buffer.Buffer a function receives (parameter, captured variable) or obtains (call result) is consumed exactly once on every path to a normal exit, in every package outside pkg/blobstore/buffer; " +
 			"consuming = IntoWriter/ReadAt/ToProto/ToByteSlice/ToChunkReader/ToReader/CloneCopy/CloneStream/WithTask/Discard, passing it in a Buffer-typed argument position, returning it, storing it into an owner",
 		Floor: 150, MustExist: false,
